@@ -118,6 +118,10 @@ FORMS_XHTML = bs4.BeautifulSoup(
     '<textarea readonly="readonly">t</textarea></form></body></html>' % XHTML, 'xml')
 XML_DOCS = [tg.doc('xml'), FORMS_XML, bs4.BeautifulSoup('<root><a href="#" dir="ltr"><input type="checkbox" checked="" '
                                                          'required=""/><input type="number" min="1" value="0"/></a></root>', 'xml')]
+XML_DOCS.append(bs4.BeautifulSoup(
+    '<feed xmlns="http://www.w3.org/2005/Atom"><entry><content type="xhtml"><div xmlns="%s" dir="ltr"><p dir="rtl">x</p>'
+    '<input type="checkbox" checked="checked" required="required"/><a href="#">l</a><input type="number" min="1" value="0"/>'
+    '<custom-el/></div></content></entry></feed>' % XHTML, 'xml'))
 WRAPS = ['%s', 'a%s', '*|*%s', ':is(%s)', ':is(root, %s)', 'root %s', '%s *', ':not(:not(%s))', ':has(%s)', '%s, %s',
          ':nth-child(n of %s)']
 
@@ -138,7 +142,7 @@ def html_only_ok(pi: int) -> bool:
             c = sv.compile(text)
             for d in XML_DOCS:
                 r = c.select(d)
-                if 'root' in text and text.startswith(':is(root'):
+                if text.startswith(':is(root'):
                     ok = ok and all(e.name == 'root' for e in r)
                 else:
                     ok = ok and r == []
